@@ -12,6 +12,7 @@ import (
 	"path/filepath"
 	"sort"
 	"strings"
+	"sync"
 	"time"
 
 	"golang.org/x/tools/go/packages"
@@ -52,7 +53,11 @@ type traceOp struct {
 	N    int
 }
 
-const genWatchdog = 60 * time.Second
+// watchdog: ~50x the typical 0.2-0.5 s of one execution; a timeout is
+// re-run once, alone, before it counts as a hang.
+const genWatchdog = 20 * time.Second
+
+var retryMu sync.Mutex
 
 // runGoderive executes bin in dir (a package directory or module root) with
 // the given arguments under plan (nil = plain run, no VERIF_PLAN).
@@ -75,6 +80,12 @@ func runGoderive(bin, dir string, args []string, plan *Plan, gomaxprocs int, ext
 		env = append(env, fmt.Sprintf("GOMAXPROCS=%d", gomaxprocs))
 	}
 	r := runCmd(dir, env, genWatchdog, bin, args...)
+	if r.TimedOut && plan != nil && len(plan.Faults) == 0 {
+		retryMu.Lock()
+		os.Truncate(tracePath, 0)
+		r = runCmd(dir, env, 2*genWatchdog, bin, args...)
+		retryMu.Unlock()
+	}
 	gr := &genRun{Exit: r.Exit, Stderr: r.Stderr, TimedOut: r.TimedOut, Wall: r.Wall}
 	if tracePath != "" {
 		b, _ := os.ReadFile(tracePath)
